@@ -1,5 +1,5 @@
 (* ConcCodec.v — a codec call on a shared cache, composed from the machine of Conc.v and the
-   sequential codec models (CodecEnc.encode, CodecDec.decode_bytes: pure functions of a schema
+   sequential codec models (CodecEnc.encode, CodecDec.decode_bytes, CodecDecQuery.decode_query: pure functions of a schema
    environment and the input).
 
    What the encoder / decoder walks is the schema OBJECT that SchemaCache.Schema handed to the
@@ -21,7 +21,7 @@
    No proofs in this file. *)
 From Coq Require Import String List NArith Bool.
 From J5V.lib Require Import Outcome Json.
-From J5V.model Require Import Conc CodecTypes CodecEnc CodecDecScalar CodecDec.
+From J5V.model Require Import Conc CodecTypes CodecEnc CodecDecScalar CodecDec CodecDecQuery.
 Import ListNotations.
 
 Section Walk.
@@ -48,6 +48,13 @@ Definition encode_call (fmt_float : bool -> N -> bytes) (any_inner : bytes -> by
 
 Definition decode_call (orc : oracles) (K : nat) (h : list cell) (c : cellid) (n : name) (doc : bytes) : outcome msg :=
   decode_bytes orc (env_seen K h c) (nm n) doc.
+
+(* Codec.QueryToProto: the (key, values) pairs in the order the loop visits them *)
+Definition query_call (orc : oracles) (K : nat) (h : list cell) (c : cellid) (n : name) (kvs : list (bytes * list bytes)) : outcome msg :=
+  decode_query orc (env_seen K h c) (nm n) kvs.
+
+Definition query_solo (orc : oracles) (K : nat) (g : graph) (n : name) (kvs : list (bytes * list bytes)) : outcome msg :=
+  decode_query orc (env_of_type K g n) (nm n) kvs.
 
 Definition encode_solo fmt_float any_inner (K : nat) (g : graph) (n : name) (m : msg) : outcome bytes :=
   encode fmt_float any_inner (env_of_type K g n) (nm n) m.
